@@ -229,11 +229,12 @@ def ArgVal.val : ArgVal → Val
   | .pos v => v
   | .kv _ v => v
 
-/-- `printIterations`: first argument, when it is a bytes pointer holding a decimal. -/
+/-- `printIterations`: first argument, when it is a bytes pointer holding a decimal — one pass at least (repair: a
+    count of zero or less, which may come from the data, used to switch the escaping off). -/
 def printIterations (args : List ArgVal) : Nat :=
   match args with
   | .pos (.bytes b) :: _ => match parseIntLit b with
-    | some n => n.toNat
+    | some n => max 1 n.toNat
     | none => 1
   | _ => 1
 
